@@ -20,11 +20,14 @@
 #include <iv.h>
 #include <iv_event.h>
 #include <iv_event_raw.h>
+#include <iv_work.h>
+#include <iv_thread.h>
 
-enum { K_FD, K_TM, K_TK, K_EV, K_RAW, NKIND };
-static const char *kname[NKIND] = { "fd", "tm", "tk", "ev", "raw" };
+enum { K_FD, K_TM, K_TK, K_EV, K_RAW, K_POOL, K_WI, NKIND };
+static const char *kname[NKIND] = { "fd", "tm", "tk", "ev", "raw", "pool", "wi" };
 static const size_t ksize[NKIND] = { sizeof(struct iv_fd), sizeof(struct iv_timer),
-	sizeof(struct iv_task), sizeof(struct iv_event), sizeof(struct iv_event_raw) };
+	sizeof(struct iv_task), sizeof(struct iv_event), sizeof(struct iv_event_raw),
+	sizeof(struct iv_work_pool), sizeof(struct iv_work_item) };
 #define MAXO 8
 #define COOKIE_MAGIC 0x1ccc00c1u
 
@@ -58,7 +61,7 @@ static __thread int cbdepth, inapi;
 #define MAXTH 6
 static pthread_t thr[MAXTH];
 static int thr_started[MAXTH], thr_joined[MAXTH];
-static int schedbuf[1024], nsched, sched_det, sticky = -1;
+static int schedbuf[1024], nsched, sched_det, sticky = -1, jump;
 
 /* ---------------------------------------------------------------- helpers */
 static int kind_of(const char *s)
@@ -220,7 +223,12 @@ static void cb_common(void *cookie, int kind, int band, int hid)
 		o->reg = 0;
 		quarantine(kind, c->id);
 	}
-	if (simk_wait_count() > maxwait && !forced_quit) {
+	if (kind == K_WI && band == 2) {
+		/* completion: the item is the caller's again */
+		o->reg = 0;
+		quarantine(K_WI, c->id);
+	}
+	if (me == 0 && simk_wait_count() > maxwait && !forced_quit) {
 		forced_quit = 1;
 		iv_quit();
 		tr("\"e\":\"A\",\"op\":\"quit\",\"o\":0,\"a\":1,\"b\":0,\"c\":0,\"ts\":[0,0],\"r\":0}");
@@ -245,6 +253,20 @@ static void (*fdhtab[4][9])(void *) = { { NULL }, FDT(1), FDT(2), FDT(3) };
 OH8(tm, K_TM) OH8(tk, K_TK) OH8(ev, K_EV) OH8(raw, K_RAW)
 #define OT(k) { NULL, k##h_1, k##h_2, k##h_3, k##h_4, k##h_5, k##h_6, k##h_7, k##h_8 }
 static void (*ohtab[NKIND][9])(void *) = { { NULL }, OT(tm), OT(tk), OT(ev), OT(raw) };
+
+static void wi_work(void *c) { cb_common(c, K_WI, 1, ((struct cookie *)c)->id); }
+static void wi_completion(void *c) { cb_common(c, K_WI, 2, ((struct cookie *)c)->id); }
+
+static void pool_hook(void *cookie, const char *what)
+{
+	struct cookie *c = cookie;
+
+	tr("\"e\":\"Hook\",\"op\":\"%s\",\"o\":%d}", what, (c && c->magic == COOKIE_MAGIC) ? c->id : -1);
+}
+static void pool_start(void *c) { pool_hook(c, "start"); }
+static void pool_stop(void *c) { pool_hook(c, "stop"); }
+
+static void ivthread_body(void *arg);
 
 /* fd `f` handler variant v (0 none, 1, 2) -> handler id */
 static int hid_of(int f, int v) { return v ? 2 * f - 2 + v : 0; }
@@ -472,6 +494,69 @@ static void do_op(struct op *p)
 		iv_event_raw_post(o->mem);
 		o->inpost--;
 		alog(n, id, 0, 0, 0, 0, 0);
+	} else if (!strcmp(n, "pool_create")) {
+		OBJ(K_POOL);
+		if (o->reg) { skip(n, id); goto out; }
+		struct iv_work_pool *pl = fresh(K_POOL, id);
+		IV_WORK_POOL_INIT(pl);
+		pl->max_threads = (int)p->a[1];
+		pl->cookie = cookie_of(K_POOL, id);
+		pl->thread_start = pool_start;
+		pl->thread_stop = pool_stop;
+		r = iv_work_pool_create(pl);
+		if (r == 0) o->reg = 1;
+		alog(n, id, p->a[1], 0, 0, 0, r);
+	} else if (!strcmp(n, "pool_put")) {
+		OBJ(K_POOL);
+		/* putting a pool while another thread is inside a submit call on
+		 * the same structure would be a race in the user program */
+		if (!o->reg || o->inpost) { skip(n, id); goto out; }
+		o->reg = 0;
+		iv_work_pool_put(o->mem);
+		alog(n, id, 0, 0, 0, 0, 0);
+		quarantine(K_POOL, id);
+	} else if (!strcmp(n, "submit") || !strcmp(n, "submit_cont")) {
+		/* a[0] = item, a[1] = pool (0: NULL pool) */
+		OBJ(K_WI);
+		int pid_ = (int)p->a[1];
+		struct obj *po = (pid_ >= 1 && pid_ <= MAXO) ? &O[K_POOL][pid_] : NULL;
+		if (o->reg || (pid_ && (po == NULL || !po->reg))) { skip(n, id); goto out; }
+		struct iv_work_item *w = fresh(K_WI, id);
+		IV_WORK_ITEM_INIT(w);
+		w->cookie = cookie_of(K_WI, id);
+		w->work = wi_work;
+		w->completion = wi_completion;
+		o->reg = 1;
+		tr("\"e\":\"SubB\",\"o\":%d,\"p\":%d}", id, pid_);
+		if (po) po->inpost++;
+		if (!strcmp(n, "submit"))
+			iv_work_pool_submit_work(pid_ ? po->mem : NULL, w);
+		else
+			iv_work_pool_submit_continuation(pid_ ? po->mem : NULL, w);
+		if (po) po->inpost--;
+		alog(n, id, pid_, 0, 0, 0, 0);
+	} else if (!strcmp(n, "thr_create")) {
+		/* a[0] = thread program id (its 'T' lines), created through iv_thread */
+		if (id < 1 || id >= MAXTH || thr_started[id]) { skip(n, id); goto out; }
+		char nm[32];
+		snprintf(nm, sizeof nm, "ivh thread %d", id);
+		thr_started[id] = 2;
+		r = iv_thread_create(nm, ivthread_body, (void *)(long)id);
+		alog(n, id, 0, 0, 0, 0, r);
+	} else if (!strcmp(n, "iv_init")) {
+		iv_init();
+		alog(n, 0, 0, 0, 0, 0, 0);
+	} else if (!strcmp(n, "iv_main")) {
+		tr("\"e\":\"MainB\"}");
+		iv_main();
+		tr("\"e\":\"MainE\"}");
+	} else if (!strcmp(n, "iv_deinit")) {
+		iv_deinit();
+		alog(n, 0, 0, 0, 0, 0, 0);
+	} else if (!strcmp(n, "pthread_exit")) {
+		tr("\"e\":\"ThE\"}");
+		inapi--;
+		pthread_exit(NULL);
 	} else if (!strcmp(n, "raw_burst")) {
 		OBJ(K_RAW);
 		if (!o->reg) { skip(n, id); goto out; }
@@ -571,7 +656,7 @@ static void *thread_body(void *arg)
 {
 	int tid = (int)(long)arg;
 
-	tr("\"e\":\"ThB\"}");
+	tr("\"e\":\"ThB\",\"x\":%d}", tid);
 	for (int i = 0; i < nops; i++)
 		if (ops[i].ctx == 'T' && ops[i].kind == tid)
 			do_op(&ops[i]);
@@ -579,10 +664,15 @@ static void *thread_body(void *arg)
 	return NULL;
 }
 
+static void ivthread_body(void *arg)
+{
+	thread_body(arg);
+}
+
 static void join_threads(void)
 {
 	for (int i = 1; i < MAXTH; i++) {
-		if (thr_started[i] && !thr_joined[i]) {
+		if (thr_started[i] == 1 && !thr_joined[i]) {
 			thr_joined[i] = 1;
 			pthread_join(thr[i], NULL);
 		}
@@ -656,6 +746,7 @@ static void run_script(void)
 		simk_set_schedule(schedbuf, nsched);
 	if (sticky >= 0)
 		simk_set_sticky(sticky);
+	simk_jump_prob = jump;
 	hooks.truth_json = truth_json;
 	hooks.fid_of_ptr = fid_of_ptr;
 	hooks.fid_of_osfd = fid_of_osfd;
@@ -701,6 +792,8 @@ static void reset_script(void)
 	nsched = 0;
 	sched_det = 0;
 	sticky = -1;
+	jump = 0;
+	maxcb = 120;
 	memset(thr_started, 0, sizeof thr_started);
 	memset(thr_joined, 0, sizeof thr_joined);
 	for (int k = 0; k < NKIND; k++)
@@ -753,6 +846,8 @@ int main(int argc, char **argv)
 				else if (!strncmp(tok[i], "maxwait=", 8)) maxwait = atoi(tok[i] + 8);
 				else if (!strncmp(tok[i], "reuse=", 6)) reuse = atoi(tok[i] + 6);
 				else if (!strncmp(tok[i], "det=", 4)) sched_det = atoi(tok[i] + 4);
+				else if (!strncmp(tok[i], "jump=", 5)) jump = atoi(tok[i] + 5);
+				else if (!strncmp(tok[i], "maxcb=", 6)) maxcb = atoi(tok[i] + 6);
 				else if (!strncmp(tok[i], "sticky=", 7)) sticky = atoi(tok[i] + 7);
 				else if (!strncmp(tok[i], "sched=", 6)) {
 					nsched = 0;
